@@ -12,6 +12,7 @@ pub mod c03;
 pub mod c04;
 pub mod c05;
 pub mod c06;
+pub mod c07;
 pub mod c10;
 pub mod c13;
 pub mod c14;
